@@ -103,9 +103,9 @@ def gen_outputs(rng: common.Rng, pts, dout: int, kind: str | None = None):
     return rows
 
 
-def split_sizes(rng: common.Rng, total: int, names: list[str]) -> list[list[Any]]:
-    """Split `total` components over 1..len(names) variables (dataset order = random order of names)."""
-    k = rng.randint(1, min(total, len(names)))
+def split_sizes(rng: common.Rng, total: int, names: list[str], kmin: int = 1) -> list[list[Any]]:
+    """Split `total` components over kmin..len(names) variables (dataset order = random order of names)."""
+    k = rng.randint(min(kmin, total, len(names)), min(total, len(names)))
     cuts = sorted(rng.sample(range(1, total), k - 1)) if k > 1 else []
     sizes = [b - a for a, b in zip([0, *cuts], [*cuts, total])]
     chosen = rng.sample(names, k)
@@ -217,6 +217,11 @@ def gen_reg_case(rng: common.Rng, algo: str | None = None, kernel: str | None = 
     algo = algo or rng.pick(REG_ALGOS)
     din = rng.pick([1, 1, 2, 2, 3])
     dout = rng.pick([1, 1, 2, 3])
+    # several input/output variables of several sizes (name lists of the surrogate discipline, dictionary layouts)
+    wide = rng.chance(0.3)
+    if wide:
+        din = rng.pick([2, 3, 3, 4])
+        dout = rng.pick([3, 4, 4, 5])
     opts: dict[str, Any] = {}
     case: dict[str, Any] = {"algo": algo}
     n = rng.randint(5, 9)
@@ -257,8 +262,8 @@ def gen_reg_case(rng: common.Rng, algo: str | None = None, kernel: str | None = 
     elif algo == "GaussianProcessRegressor":
         n = rng.randint(5, 8)
     case["opts"] = opts
-    case["in"] = split_sizes(rng, din, ["a", "b", "c"])
-    case["out"] = split_sizes(rng, dout, ["y", "z", "w"])
+    case["in"] = split_sizes(rng, din, ["a", "b", "c"], kmin=2 if wide else 1)
+    case["out"] = split_sizes(rng, dout, ["y", "z", "w", "v"] if wide else ["y", "z", "w"], kmin=2 if wide else 1)
     rbf_like = algo in ("RBFRegressor", "TPSRegressor", "OTGaussianProcessRegressor", "GaussianProcessRegressor") or (
         algo == "RegressorChain" and any(s == "RBFRegressor" for s, _ in case["chain"])
     )
@@ -339,7 +344,66 @@ def gen_reg_case(rng: common.Rng, algo: str | None = None, kernel: str | None = 
             case["samples"] = keep
     # query points: dyadic, away from the learning points
     case["q"] = gen_queries(rng, pts, din, rng.pick([2, 3]))
+    gen_history(rng, case, pts, din, n)
+    gen_sur(rng, case)
     return case
+
+
+def gen_history(rng: common.Rng, case, pts, din: int, n: int) -> None:
+    """Further trainings of the same model object (`learn` again: other samples, transformers refitted or kept)."""
+    algo = case["algo"]
+    if not rng.chance(0.2 if algo in SLOW or algo == "GaussianProcessRegressor" else 0.4):
+        return
+    subsets_ok = algo not in ("MOERegressor", "PCERegressor") and n > 4
+    seen = {tuple(q) for q in case["q"]}
+    hist = []
+    prev = case.get("samples")
+    for _ in range(rng.pick([1, 1, 2])):
+        samples = None
+        if subsets_ok and (prev is None or rng.chance(0.6)):
+            # a subset that differs substantially from the previous learning set (down to half of the samples)
+            lo = max(4, (n + 1) // 2)
+            samples = sorted(rng.sample(range(n), rng.randint(lo, n - 1)))
+            if samples == prev:
+                samples = None
+        has_tr = case.get("tr") is None or bool(case.get("tr"))
+        ph = {"samples": samples, "fit_transformers": not (has_tr and rng.chance(0.3))}
+        qs = []
+        guard = 0
+        while len(qs) < 2 and guard < 50:
+            guard += 1
+            for q in gen_queries(rng, pts, din, 2):
+                if tuple(q) not in seen and len(qs) < 2:
+                    seen.add(tuple(q))
+                    qs.append(q)
+        ph["q"] = qs
+        hist.append(ph)
+        prev = samples
+    case["history"] = hist
+
+
+def gen_sur(rng: common.Rng, case) -> None:
+    """SurrogateDiscipline(model, input_names=..., output_names=...): the inputs of the model in another order, any
+    non-empty sub-list of its outputs in any order (a sub-list of the inputs is rejected by the constructor: the
+    defaults of the other inputs are not in the grammar); and the construction from the name of the regressor."""
+    ins = list(case.get("input_names") or [k for k, _ in case["in"]])
+    outs = list(case.get("output_names") or [k for k, _ in case["out"]])
+    variants = []
+    if len(ins) > 1 or len(outs) > 1:
+        for _ in range(rng.pick([1, 1, 2])):
+            v_in: list[str] = []
+            if len(ins) > 1 and rng.chance(0.5):
+                v_in = list(ins)
+                rng.shuffle(v_in)
+            v_out: list[str] = []
+            if len(outs) > 1 and rng.chance(0.85):
+                v_out = rng.sample(outs, rng.randint(1, len(outs)))
+            if (v_in or v_out) and {"in": v_in, "out": v_out} not in variants:
+                variants.append({"in": v_in, "out": v_out})
+    if variants:
+        case["sur"] = variants
+    if case["algo"] in NAMED_SURROGATES and not case.get("samples") and rng.chance(0.25):
+        case["sur_named"] = True
 
 
 def has_reduction(spec) -> bool:
@@ -495,8 +559,78 @@ def is_fit_failure(e: BaseException) -> bool:
     )
 
 
-def check_reg(case: dict[str, Any], res: Result | None = None, deep: bool = True, corr: C.Corr | None = None) -> list[tuple[str, str]]:
-    """Run the real code on the case and return the violated clauses [(key, message)]."""
+class Rec:
+    """Picklable stand-in for `Result` in worker processes: histogram counts and notes only."""
+
+    def __init__(self) -> None:
+        self.histogram: dict[str, int] = {}
+        self.notes: list[str] = []
+
+    def count(self, key: str, n: int = 1) -> None:
+        self.histogram[key] = self.histogram.get(key, 0) + n
+
+
+def case_phases(case) -> list[dict[str, Any]]:
+    """The trainings of the model object of a case: the first one, then the re-trainings of `history`."""
+    first = {"samples": case.get("samples"), "fit_transformers": True, "q": case["q"]}
+    return [first, *case.get("history", [])]
+
+
+class SessRec:
+    """Protocol line `sess` of a linear/polynomial regressor trained several times (public observations only)."""
+
+    def __init__(self, case) -> None:
+        self.case = case
+        self.ok = case["algo"] in ("LinearRegressor", "PolynomialRegressor") and bool(case.get("history"))
+        self.ops: list[str] = []
+        self.expected: list[Any] = []
+
+    def learn(self, model, fit_tr: bool, din: int) -> None:
+        if not self.ok:
+            return
+        trs = model.transformer
+        if not all(k in ("inputs", "outputs") for k in trs):
+            self.ok = False
+            return
+        if fit_tr:
+            tin, tout = C.fitted_pipe(trs.get("inputs")), C.fitted_pipe(trs.get("outputs"))
+            if tin is None or tout is None:
+                self.ok = False
+                return
+        else:
+            tin = tout = "_"  # the model keeps the transformers of the previous trainings
+        W = np.asarray(model.coefficients, dtype=float)
+        b = np.asarray(model.intercept, dtype=float).ravel()
+        if self.case["algo"] == "LinearRegressor":
+            core = f"lin!{C.rmat(W)}!{C.rvec(b)}"
+        else:
+            k = len(np.asarray(trs["inputs"].transform(np.zeros(din))).ravel()) if "inputs" in trs else din
+            pw = C.poly_powers(k, int(self.case["opts"]["degree"]))
+            core = f"poly!{';'.join(','.join(str(int(v)) for v in r) for r in pw)}!{C.rmat(W)}!{C.rvec(b)}"
+        self.ops.append(f"L!{int(fit_tr)}!{tin}!{tout}!{core}")
+        self.expected.append(None)
+
+    def query(self, q, p, J) -> None:
+        if self.ok:
+            self.ops.append(f"Q!{C.rvec(q)}")
+            self.expected.append((np.asarray(p, dtype=float), None if J is None else np.asarray(J, dtype=float)))
+
+    def flush(self, corr, din: int, dout: int) -> None:
+        if self.ok and sum(e is None for e in self.expected) >= 2 and any(e is not None for e in self.expected):
+            corr.add(
+                f"sess d={din} dout={dout} ops={'|'.join(self.ops)}",
+                ("sess", self.expected, C.TWO30),
+                {"stream": "regressor", "case": self.case, "what": "retrained-" + reg_tag(self.case)},
+            )
+
+
+def check_reg(case: dict[str, Any], res: Result | Rec | None = None, deep: bool = True, corr: C.Corr | None = None) -> list[tuple[str, str]]:
+    """Run the real code on the case and return the violated clauses [(key, message)].
+
+    The model object of the case is trained, observed, then trained again and observed again for every phase of
+    `case["history"]` (other samples, transformers refitted or kept): every clause of the property must hold for
+    the prediction function *in force*, whatever was computed before.
+    """
     bad: list[tuple[str, str]] = []
     tag = reg_tag(case)
 
@@ -517,27 +651,71 @@ def check_reg(case: dict[str, Any], res: Result | None = None, deep: bool = True
             count("ot-fit-failed-skipped")
             return []
         return [(f"crash-learn:{tag}:{type(e).__name__}", f"creating/training the model raised {type(e).__name__}: {str(e)[:200]}")]
+    sess = SessRec(case) if corr is not None else None
+    kept: list[Any] = []  # surrogate disciplines created after earlier trainings, observed again after each new one
+    dims = (0, 0)
+    for pi, ph in enumerate(case_phases(case)):
+        fit_tr = bool(ph.get("fit_transformers", True))
+        if pi > 0:
+            count("history:retrain" + ("" if ph.get("samples") is None else "-subset") + ("" if fit_tr else "-keep-transformers"))
+            try:
+                L.relearn(model, ph)
+                for item in kept:
+                    if item["own_model"]:
+                        L.relearn(item["disc"].regression_model, ph)
+            except Exception as e:  # noqa: BLE001
+                if is_fit_failure(e):
+                    count(f"fit-failed-skipped:{case['algo']}")
+                elif case["algo"] in OT_ALGOS:
+                    count("ot-fit-failed-skipped")
+                else:
+                    bad.append((f"retrained/crash-learn:{tag}:{type(e).__name__}", f"training #{pi + 1} of the same model object raised {type(e).__name__}: {str(e)[:200]}"))
+                break
+        pbad, dims = observe_reg(case, model, ph, pi, count, res, deep, corr, sess, kept, fit_tr)
+        if pi == 0:
+            bad += pbad
+        else:
+            bad += [("retrained/" + k, f"[after training #{pi + 1} of the same model object] {m}") for k, m in pbad]
+    if sess is not None and corr is not None and not bad:
+        try:
+            sess.flush(corr, *dims)
+        except Exception as e:  # noqa: BLE001
+            if res is not None:
+                res.notes.append(f"could not build the session line of a regressor case: {e!r}")
+    return bad
+
+
+def observe_reg(case, model, ph, pi: int, count, res, deep: bool, corr, sess, kept, fit_tr: bool):
+    """All the observations of one trained state of the model object; returns (violated clauses, (din, dout))."""
+    bad: list[tuple[str, str]] = []
+    tag = reg_tag(case)
     icols, ocols, sizes = L.model_layout(case, model)
     X, Y = L.arr(case["X"]), L.arr(case["Y"])
-    if case.get("samples"):
-        X, Y = X[[int(i) for i in case["samples"]]], Y[[int(i) for i in case["samples"]]]
+    if ph.get("samples") is not None:
+        X, Y = X[[int(i) for i in ph["samples"]]], Y[[int(i) for i in ph["samples"]]]
     Xm, Ym = X[:, icols], Y[:, ocols]
-    Q = L.arr(case["q"])[:, icols] if case["q"] else np.zeros((0, len(icols)))
+    Q = L.arr(ph["q"])[:, icols] if ph["q"] else np.zeros((0, len(icols)))
     din, dout = len(icols), len(ocols)
+    dims = (din, dout)
+    if sess is not None:
+        try:
+            sess.learn(model, fit_tr, din)
+        except Exception:  # noqa: BLE001
+            sess.ok = False
     expect_jac = offers_derivatives(case)
     # ---- predictions: array / batch / dict
     try:
         P1 = [np.asarray(model.predict(q), dtype=float) for q in Q]
         PB = np.asarray(model.predict(Q), dtype=float) if len(Q) else np.zeros((0, dout))
     except Exception as e:  # noqa: BLE001
-        return [(f"crash-predict:{tag}:{type(e).__name__}", f"predict raised {type(e).__name__}: {str(e)[:200]}")]
+        return [(f"crash-predict:{tag}:{type(e).__name__}", f"predict raised {type(e).__name__}: {str(e)[:200]}")], dims
     for k, p in enumerate(P1):
         if p.shape != (dout,) or not L.finite(p):
             bad.append((f"predict-shape:{tag}", f"predict of a 1-D input returned shape {p.shape} (expected ({dout},)) or a non-finite value"))
-            return bad
+            return bad, dims
     if PB.shape != (len(Q), dout):
         bad.append((f"predict-shape:{tag}", f"predict of a ({len(Q)},{din}) array returned shape {PB.shape}"))
-        return bad
+        return bad, dims
     # rounding-noise amplification of the model itself: an ill-conditioned fit (not modelled) is skipped
     noise = Fraction(0)
     for q, p in zip(Q, P1):
@@ -550,7 +728,9 @@ def check_reg(case: dict[str, Any], res: Result | None = None, deep: bool = True
     big = L.max_abs(np.concatenate(P1)) if P1 else Fraction(0)
     if not (noise <= Fraction(1, 2**34) * max(Fraction(1), L.max_abs(Ym)) and big <= 2**16 * max(Fraction(1), L.max_abs(Ym))):
         count("ill-conditioned-skipped")
-        return bad
+        if sess is not None:
+            sess.ok = False
+        return bad, dims
     for k, p in enumerate(P1):
         if not L.within(PB[k], p, L.TWO20):
             bad.append((f"predict-batch:{tag}", f"row {k} of the batch prediction differs from the prediction of the same point alone: {PB[k]} vs {p}"))
@@ -620,7 +800,7 @@ def check_reg(case: dict[str, Any], res: Result | None = None, deep: bool = True
                 if not (F(dis) <= L.TWO24 * scale):
                     count("fd-unreliable-skipped")
                     continue
-                count("jacobian-vs-fd")
+                count("jacobian-vs-fd" if pi == 0 else "jacobian-vs-fd-after-retraining")
                 d = L.max_abs_diff(J, ref)
                 bound = OT_BOUND if case["algo"] in OT_ALGOS else L.TWO20
                 if not (d is not None and d <= bound * scale):
@@ -666,6 +846,10 @@ def check_reg(case: dict[str, Any], res: Result | None = None, deep: bool = True
         except Exception as e:  # noqa: BLE001
             bad.append((f"crash-jacobian-dict:{tag}:{type(e).__name__}", f"predict_jacobian with a dictionary raised {type(e).__name__}: {str(e)[:200]}"))
     # ---- correspondence with the Lean model (chain rule of the wrapper, linear/polynomial/RBF cores, name splitting)
+    jac_ok = J1 is not None and all(J.shape == (dout, din) for J in J1)
+    if sess is not None:
+        for k, q in enumerate(Q[:2]):
+            sess.query(q, P1[k], J1[k] if jac_ok else None)
     if corr is not None and not bad and len(Q):
         try:
             add_reg_lines(corr, case, model, Q, P1, J1, Jd, sizes, dout, din)
@@ -674,8 +858,8 @@ def check_reg(case: dict[str, Any], res: Result | None = None, deep: bool = True
                 res.notes.append(f"could not build the protocol line of a regressor case: {e!r}")
     # ---- surrogate discipline
     if deep:
-        bad += check_surrogate(case, model, Q, sizes, tag, J1 is not None, count)
-    return bad
+        bad += check_surrogate(case, model, Q, sizes, tag, J1 is not None, count, kept, pi, corr if not bad else None)
+    return bad, dims
 
 
 def add_reg_lines(corr: C.Corr, case, model, Q, P1, J1, Jd, sizes, dout: int, din: int) -> None:
@@ -696,7 +880,7 @@ def add_reg_lines(corr: C.Corr, case, model, Q, P1, J1, Jd, sizes, dout: int, di
                     else:
                         pw = C.poly_powers(len(z), int(case["opts"]["degree"]))
                         line = f"poly tin={tin} tout={tout} P={';'.join(','.join(str(int(v)) for v in r) for r in pw)} C={C.rmat(W)} b={C.rvec(b)} x={C.rvec(q)}"
-                    corr.add(line, C.reg_compare(P1[k], J1[k] if jac_ok else None, C.TWO30), ctx)
+                    corr.add(line, ("reg", P1[k], J1[k] if jac_ok else None, C.TWO30), ctx)
     if algo == "RBFRegressor" and case.get("tr") == {} and case["opts"].get("function") in L.KERNELS:
         from gemseo.mlearning.regression.algos.rbf import RBFRegressor
 
@@ -709,11 +893,12 @@ def add_reg_lines(corr: C.Corr, case, model, Q, P1, J1, Jd, sizes, dout: int, di
                 f"rbf k={model.function} eps={C.bits(rbf.epsilon)} tol={C.bits(RBFRegressor.RBFDerivatives.TOL)} "
                 f"C={C.bmat(rbf.xi.T)} W={C.bmat(nodes)} avg={C.bvec(avg)} x={C.bvec(q)}"
             )
-            corr.add(line, C.rbf_compare(P1[k], J1[k] if jac_ok else None, C.TWO30, scale), ctx)
+            corr.add(line, ("rbf", P1[k], J1[k] if jac_ok else None, C.TWO30, scale), ctx)
     if Jd is not None and jac_ok:
         outs, ins = list(model.output_names), list(model.input_names)
         line = f"split out={','.join(str(sizes[o]) for o in outs)} in={','.join(str(sizes[i]) for i in ins)} J={C.rmat(J1[0])}"
-        corr.add(line, C.split_compare(Jd, outs, ins, sizes), ctx)
+        jd = {o: {i: np.asarray(Jd[o][i], dtype=float) for i in ins} for o in outs}
+        corr.add(line, ("split", jd, outs, ins, sizes), ctx)
 
 
 def moe_stencil_in_one_cluster(model, q, h: float = 2.0**-6) -> bool:
@@ -735,42 +920,164 @@ def moe_stencil_in_one_cluster(model, q, h: float = 2.0**-6) -> bool:
         return False
 
 
-def check_surrogate(case, model, Q, sizes, tag, has_jac, count) -> list[tuple[str, str]]:
+# --------------------------------------------------------------------------- surrogate discipline
+
+NAMED_SURROGATES = ("LinearRegressor", "PolynomialRegressor", "RBFRegressor", "TPSRegressor")
+
+
+def sur_label(v) -> str:
+    if v.get("named"):
+        return "from-name"
+    ins, outs = v.get("in") or [], v.get("out") or []
+    return "default" if not ins and not outs else ("names:" + ("in-reordered" if ins else "in-default") + "+" + ("out-selected" if outs else "out-default"))
+
+
+def build_surrogate(case, model, v):
+    """The public ways of creating a surrogate discipline: from a trained regressor (with or without name lists)
+    or from the name of the regressor with the learning dataset, the transformers and the settings."""
     from gemseo.disciplines.surrogate import SurrogateDiscipline
 
-    bad = []
-    try:
-        disc = SurrogateDiscipline(model)
-    except Exception as e:  # noqa: BLE001
-        return [(f"crash-surrogate:{tag}:{type(e).__name__}", f"SurrogateDiscipline(model) raised {type(e).__name__}: {str(e)[:200]}")]
-    auto = disc.linearization_mode == disc.LinearizationMode.AUTO
-    if auto != has_jac:
-        bad.append((f"surrogate-mode:{tag}", f"linearization mode {disc.linearization_mode} although the model {'offers' if has_jac else 'does not offer'} a Jacobian"))
-    for q in Q[:2]:
-        xd = L.to_dict(q, model.input_names, sizes)
+    kw: dict[str, Any] = {}
+    if v.get("in"):
+        kw["input_names"] = list(v["in"])
+    if v.get("out"):
+        kw["output_names"] = list(v["out"])
+    if not v.get("named"):
+        return SurrogateDiscipline(model, **kw)
+    kw.update(L._opts(case.get("opts", {})))
+    tr = case.get("tr")
+    if tr is not None:
+        kw["transformer"] = {k: L.build_transformer(s) for k, s in tr.items()}
+    return SurrogateDiscipline(case["algo"], data=L.build_dataset(case), **kw)
+
+
+def check_surrogate(case, model, Q, sizes, tag, has_jac, count, kept=None, pi: int = 0, corr=None) -> list[tuple[str, str]]:
+    """`execute`/`linearize` of surrogate disciplines vs the predictions/Jacobians of their regression model.
+
+    Disciplines: a new one for the current state of the model and for every name-list variant of the case, plus the
+    disciplines created after the earlier trainings of the same model object (they must follow the model).
+    """
+    bad: list[tuple[str, str]] = []
+    kept = kept if kept is not None else []
+    items = list(kept)
+    variants = [{"in": [], "out": []}, *case.get("sur", [])]
+    if case.get("sur_named") and pi == 0 and case["algo"] in NAMED_SURROGATES and not case.get("samples"):
+        v = {"named": True, "in": case.get("input_names") or [], "out": case.get("output_names") or []}
+        variants.append(v)
+    for v in variants:
+        label = sur_label(v)
         try:
-            pd = model.predict(xd)
-            out = disc.execute({k: v.copy() for k, v in xd.items()})
+            disc = build_surrogate(case, model, v)
+        except Exception as e:  # noqa: BLE001
+            if v.get("named") and is_fit_failure(e):
+                count(f"fit-failed-skipped:{case['algo']}")
+                continue
+            bad.append((f"crash-surrogate:{tag}:{type(e).__name__}", f"SurrogateDiscipline ({label}) raised {type(e).__name__}: {str(e)[:200]}"))
+            continue
+        count("surrogate:" + label)
+        auto = disc.linearization_mode == disc.LinearizationMode.AUTO
+        if auto != has_jac:
+            bad.append((f"surrogate-mode:{tag}", f"linearization mode {disc.linearization_mode} although the model {'offers' if has_jac else 'does not offer'} a Jacobian"))
+        item = {"disc": disc, "v": v, "own_model": bool(v.get("named")), "born": pi}
+        items.append(item)
+        if pi == 0 and case.get("history"):
+            kept.append(item)
+    for item in items:
+        disc, v = item["disc"], item["v"]
+        ref = disc.regression_model
+        label = sur_label(v) + ("" if item["born"] == pi else "-created-before-retraining")
+        if item["born"] != pi:
+            count("surrogate-kept-after-retraining")
+        sub = observe_surrogate(disc, ref, v, Q, sizes, tag, has_jac, count, label, corr, case, fd=item["own_model"] or item["born"] != pi)
+        bad += sub
+        if sub:
+            break
+    return bad
+
+
+def observe_surrogate(disc, ref, v, Q, sizes, tag, has_jac, count, label, corr, case, fd: bool) -> list[tuple[str, str]]:
+    bad: list[tuple[str, str]] = []
+    m_in, m_out = list(ref.input_names), list(ref.output_names)
+    ins = list(v.get("in") or m_in)
+    outs = list(v.get("out") or m_out)
+    off_o, off_i, k = {}, {}, 0
+    for n in m_out:
+        off_o[n] = k
+        k += sizes[n]
+    k = 0
+    for n in m_in:
+        off_i[n] = k
+        k += sizes[n]
+    auto = disc.linearization_mode == disc.LinearizationMode.AUTO
+    try:
+        if set(disc.io.input_grammar.names) != set(ins) or set(disc.io.output_grammar.names) != set(outs):
+            bad.append((f"surrogate-names:{tag}", f"SurrogateDiscipline ({label}) has inputs {list(disc.io.input_grammar.names)} / outputs {list(disc.io.output_grammar.names)}, requested {ins} / {outs}"))
+            return bad
+        for kq, q in enumerate(Q[:2]):
+            xm = L.to_dict(q, m_in, sizes)
+            xd = {n: xm[n].copy() for n in ins}  # in the order of the requested names
+            pd = ref.predict({n: a.copy() for n, a in xm.items()})
+            parr = np.asarray(ref.predict(q.copy()), dtype=float)
+            out = disc.execute(xd)
             count("surrogate-execute")
-            for o in model.output_names:
-                a, b = np.asarray(out[o], dtype=float), np.asarray(pd[o], dtype=float).flatten()
-                if a.shape != b.shape or not L.finite(a) or not np.array_equal(a, b):
-                    bad.append((f"surrogate-execute:{tag}", f"SurrogateDiscipline.execute output {o}={a} is not the model prediction {b}"))
-                    break
+            for o in outs:
+                a = np.asarray(out[o], dtype=float)
+                b = np.asarray(pd[o], dtype=float).flatten()
+                w = parr[off_o[o] : off_o[o] + sizes[o]]
+                if a.shape != b.shape or not L.finite(a) or not np.array_equal(a, b) or not L.within(a, w, L.TWO40):
+                    bad.append((f"surrogate-execute:{tag}", f"SurrogateDiscipline ({label}; outputs {outs}) .execute returned {o}={a.tolist()} at {xm}; the model predicts {o}={b.tolist()} (array prediction {parr.tolist()}, model outputs {m_out})"))
+                    return bad
+            jac = None
             if has_jac and auto:
-                Jd = model.predict_jacobian(xd)
-                jac = disc.linearize({k: v.copy() for k, v in xd.items()}, compute_all_jacobians=True)
+                Jd = ref.predict_jacobian({n: a.copy() for n, a in xm.items()})
+                Jarr = np.asarray(ref.predict_jacobian(q.copy()), dtype=float)
+                # all the Jacobians for the first point, the default (differentiated inputs/outputs of the constructor) for the next
+                jac = disc.linearize(xd, compute_all_jacobians=True) if kq == 0 else disc.linearize(xd)
                 count("surrogate-linearize")
-                for o in model.output_names:
-                    for i in model.input_names:
+                for o in outs:
+                    for i in ins:
                         a = np.asarray(jac[o][i], dtype=float)
                         b = np.asarray(Jd[o][i], dtype=float)
-                        if a.shape != (sizes[o], sizes[i]) or not L.finite(a) or not np.array_equal(a, b.reshape(a.shape) if b.size == a.size else b):
-                            bad.append((f"surrogate-linearize:{tag}", f"SurrogateDiscipline.linearize d{o}/d{i}={a.tolist()} is not the model Jacobian {b.tolist()}"))
-                            break
-        except Exception as e:  # noqa: BLE001
-            bad.append((f"crash-surrogate:{tag}:{type(e).__name__}", f"SurrogateDiscipline execute/linearize raised {type(e).__name__}: {str(e)[:200]}"))
-            break
+                        w = Jarr[off_o[o] : off_o[o] + sizes[o], off_i[i] : off_i[i] + sizes[i]]
+                        if a.shape != (sizes[o], sizes[i]) or not L.finite(a) or not np.array_equal(a, b.reshape(a.shape) if b.size == a.size else b) or not L.within(a, w, L.TWO40):
+                            bad.append((f"surrogate-linearize:{tag}", f"SurrogateDiscipline ({label}) .linearize d{o}/d{i}={a.tolist()} is not the model Jacobian {b.tolist()}"))
+                            return bad
+                if fd and not (case["algo"] == "MOERegressor" and not moe_stencil_in_one_cluster(ref, q)):
+                    # the Jacobian of the discipline is the derivative of the prediction function now in force
+                    try:
+                        dref, dis = L.fd_reference(ref.predict, q)
+                    except Exception:  # noqa: BLE001
+                        dref, dis = None, None
+                    if dref is not None and L.finite(dref) and F(dis) <= L.TWO24 * max(Fraction(1), L.max_abs(dref)):
+                        count("surrogate-jacobian-vs-fd")
+                        asm = np.block([[np.asarray(jac[o][i], dtype=float).reshape(sizes[o], sizes[i]) for i in m_in] for o in outs])
+                        rows = [c for o in outs for c in range(off_o[o], off_o[o] + sizes[o])]
+                        bound = OT_BOUND if case["algo"] in OT_ALGOS else L.TWO20
+                        if not L.within(asm, dref[rows], bound):
+                            bad.append((f"surrogate-jacobian:{tag}", f"SurrogateDiscipline ({label}) .linearize is not the derivative of the predictions of its regression model at {q.tolist()}: {asm.tolist()} vs {dref[rows].tolist()}"))
+                            return bad
+            if corr is not None and kq == 0:
+                line = (
+                    f"sur out={','.join(str(sizes[o]) for o in m_out)} in={','.join(str(sizes[i]) for i in m_in)} "
+                    f"so={','.join(str(m_out.index(o)) for o in outs)} si={','.join(str(m_in.index(i)) for i in ins)} "
+                    f"p={C.rvec(parr)} J={C.rmat(Jarr) if jac is not None else '_'}"
+                )
+                ys = [np.asarray(out[o], dtype=float) for o in outs]
+                blocks = None if jac is None else {(n, m): np.asarray(jac[o][i], dtype=float) for n, o in enumerate(outs) for m, i in enumerate(ins)}
+                corr.add(line, ("sur", ys, blocks, C.TWO40), {"stream": "regressor", "case": case, "what": "surrogate-" + label, "deep": True})
+        if not v.get("in") and not v.get("out") and not v.get("named"):
+            # default input data: the centre of the learning input space of the model
+            centre = {n: np.asarray(a, dtype=float).copy() for n, a in ref.input_space_center.items()}
+            out = disc.execute()
+            pd = ref.predict(centre)
+            count("surrogate-execute-defaults")
+            for o in outs:
+                a, b = np.asarray(out[o], dtype=float), np.asarray(pd[o], dtype=float).flatten()
+                if a.shape != b.shape or not L.finite(a) or not np.array_equal(a, b):
+                    bad.append((f"surrogate-execute:{tag}", f"SurrogateDiscipline.execute() with the default inputs (centre of the learning inputs) returned {o}={a.tolist()}, the model predicts {b.tolist()} there"))
+                    return bad
+    except Exception as e:  # noqa: BLE001
+        bad.append((f"crash-surrogate:{tag}:{type(e).__name__}", f"SurrogateDiscipline ({label}) execute/linearize raised {type(e).__name__}: {str(e)[:200]}"))
     return bad
 
 
@@ -779,7 +1086,44 @@ def check_surrogate(case, model, Q, sizes, tag, has_jac, count) -> list[tuple[st
 
 def reg_candidates(case):
     """Simpler variants of a case (each is a valid in-scope case)."""
-    c = copy.deepcopy(case)
+    # fewer trainings / fewer surrogate disciplines first
+    hist = case.get("history") or []
+    if hist:
+        c2 = copy.deepcopy(case)
+        c2.pop("history")
+        yield c2
+        for j in range(len(hist)):
+            if len(hist) > 1:
+                c2 = copy.deepcopy(case)
+                c2["history"] = hist[:j] + hist[j + 1 :]
+                yield c2
+            if hist[j].get("samples") is not None or not hist[j].get("fit_transformers", True):
+                c2 = copy.deepcopy(case)
+                c2["history"][j]["samples"] = None
+                c2["history"][j]["fit_transformers"] = True
+                yield c2
+    if case.get("sur_named"):
+        c2 = copy.deepcopy(case)
+        c2.pop("sur_named")
+        yield c2
+    sur = case.get("sur") or []
+    if sur:
+        c2 = copy.deepcopy(case)
+        c2.pop("sur")
+        yield c2
+        for j in range(len(sur)):
+            if len(sur) > 1:
+                c2 = copy.deepcopy(case)
+                c2["sur"] = [sur[j]]
+                yield c2
+            if sur[j].get("in"):
+                c2 = copy.deepcopy(case)
+                c2["sur"] = [{"in": [], "out": sur[j]["out"]}]
+                yield c2
+    if case.get("samples"):
+        c2 = copy.deepcopy(case)
+        c2.pop("samples")
+        yield c2
     if case.get("tr") != {}:
         c2 = copy.deepcopy(case)
         c2["tr"] = {}
@@ -810,7 +1154,7 @@ def reg_candidates(case):
             yield c2
     # fewer outputs
     dout = sum(s for _, s in case["out"])
-    if dout > 1 and not case.get("output_names"):
+    if dout > 1 and not case.get("output_names") and not sur:
         for j in range(dout):
             c2 = copy.deepcopy(case)
             c2["out"] = [["y", 1]]
@@ -821,18 +1165,18 @@ def reg_candidates(case):
             yield c2
     # fewer learning points
     n = len(case["X"])
-    if n > (8 if case["algo"] in ("MOERegressor", "PCERegressor") else 4) and not case.get("samples"):
+    if n > (8 if case["algo"] in ("MOERegressor", "PCERegressor") else 4) and not case.get("samples") and not any(h.get("samples") is not None for h in hist):
         for j in range(n):
             c2 = copy.deepcopy(case)
             c2["X"] = case["X"][:j] + case["X"][j + 1 :]
             c2["Y"] = case["Y"][:j] + case["Y"][j + 1 :]
             yield c2
     # merge variables
-    if len(case["in"]) > 1 and not case.get("input_names") and all(k in ("inputs", "outputs") for k in (case.get("tr") or {})):
+    if len(case["in"]) > 1 and not case.get("input_names") and not sur and all(k in ("inputs", "outputs") for k in (case.get("tr") or {})):
         c2 = copy.deepcopy(case)
         c2["in"] = [["a", sum(s for _, s in case["in"])]]
         yield c2
-    if len(case["out"]) > 1 and not case.get("output_names") and all(k in ("inputs", "outputs") for k in (case.get("tr") or {})):
+    if len(case["out"]) > 1 and not case.get("output_names") and not sur and all(k in ("inputs", "outputs") for k in (case.get("tr") or {})):
         c2 = copy.deepcopy(case)
         c2["out"] = [["y", sum(s for _, s in case["out"])]]
         yield c2
@@ -861,7 +1205,7 @@ def shrink_reg(case, key: str, budget: int = 60):
             if calls > budget:
                 break
             try:
-                if any(k == key for k, _ in check_reg(cand, None, deep=key.startswith(("surrogate", "crash-surrogate")))):
+                if any(k == key for k, _ in check_reg(cand, None, deep="surrogate" in key)):
                     cur = cand
                     progress = True
                     break
